@@ -8,6 +8,6 @@ PROP = dict(
     assumptions=["fake backend logs each call; a backend call made to fail has no effect on the world model",
                  "the fixture's pre-seeded 'core' record (written straight into the state) is outside the cross-check"],
     engines=[
-        gt("histories", "overlord/snapstate", "TestVerifC11", dict(checks=30, shards=4, timeout=2400), dict(checks=150, shards=16, timeout=3 * 3600)),
+        gt("histories", "overlord/snapstate", "TestVerifC11", dict(checks=30, shards=4, timeout=2400), dict(checks=120, shards=16, timeout=3 * 3600)),
     ],
 )
